@@ -1,11 +1,19 @@
-(* C01 - running a program yields exactly what its source text denotes. Property theorems only (definitional semantics in spec/Sem.v, fragment and observation relation in spec/Fragment.v, proofs in proofs/CompileCorrectA.v / CompileCorrectB.v). FULL STATEMENT (compile_correct): forall p, wf_prog p -> forall fuel r, sem_program orc fuel p = r -> r <> SemFuel -> exists budget, obs_eq (run_program orc bc budget) r. PROVED so far (hence `_partial`): fragment F2 = top-level code over integer/boolean literals, all 13 binary and both prefix operators, variables in nested block scopes (slot reuse included), assignment, blocks, als / anders als / anders as statement and as value, zolang with stop / volgende at any block depth of the loop body (compile_correct_F2; F1 = the same without blocks and control flow). Outside F1 the statement is carried per program by the correspondence of Compiler.v/VM.v with the implementation AND the evaluation of Sem.v on the same tree inside Coq. *)
+(* C01 - running a program yields exactly what its source text denotes. Property theorems only (definitional semantics in spec/Sem.v; fragments and observation relations in spec/Fragment*.v; proofs in proofs/CompileCorrectA.v ... I.v). FULL STATEMENT (compile_correct): forall p, wf_prog p -> forall fuel r, sem_program orc fuel p = r -> r <> SemFuel -> exists budget, obs_eq (run_program orc bc budget) r. PROVED so far (hence `_partial`): fragment F3 = scalar and function values: integer/boolean literals, all 13 binary and both prefix operators, variables in nested block scopes (slot reuse), assignment, blocks, als / anders als / anders as statement and value, zolang with stop / volgende, FUNCTIONS: named and anonymous literals, parameters, locals, calls (arguments left to right, then the callee), antwoord from any depth, recursion, functions stored in variables / passed / returned, and the fused local-constant instructions (compile_correct_F3; F2 = the same without functions, F1 without control flow). Run-time events excluded by the theorem's disjunct `hits_excluded` (a property of the machine run): a call beyond the 16-bit stack / frame limits (4.3 item 5) and ==/!= on two function values (4.3 item 14). Heap values and builtins (fragment F2h) are in progress; outside the proved fragments the statement is carried per program by the correspondence of Compiler.v/VM.v with the implementation AND the evaluation of Sem.v on the same tree inside Coq. *)
 From NL.Model Require Import Pipeline.
-From NL.Spec Require Import Sem Fragment Fragment2.
-From NL.Proofs Require CompileCorrectA CompileCorrectB CompileCorrectC CompileCorrectD.
+From NL.Spec Require Import Sem Fragment Fragment2 Fragment3.
+From NL.Proofs Require CompileCorrectA CompileCorrectB CompileCorrectC CompileCorrectD CompileCorrectI.
 Open Scope Z_scope.
 
-(* compiler correctness on fragment F2 (scalars, variables in nested scopes, blocks, if-chains, loops with stop/volgende): what the machine computes from the compiled bytecode - value, output, error kind - is what the definitional semantics assigns to the tree *)
-Theorem compile_correct_partial : forall (orc : oracle) (p : block), in_F2 p = true -> ends_expr p = true -> forall bc : bytecode, compile p = Ok bc -> forall fuel : nat, (size2_b p <= fuel)%nat -> sem_program orc fuel p <> SemFuel -> exists budget : nat, obs_eq (run_program orc bc budget) (sem_program orc fuel p).
+(* compiler correctness on fragment F3 (F2 + functions, calls, recursion, first-class functions, fused instructions): what the machine computes from the compiled bytecode is what the definitional semantics assigns to the tree, unless the run hits one of the two excluded run-time events *)
+Theorem compile_correct_partial : forall (orc : oracle) (p : block), in_F3 p = true -> ends_expr p = true -> forall bc : bytecode, compile p = Ok bc -> forall fuel : nat, (size3_b p <= fuel)%nat -> sem_program orc fuel p <> SemFuel -> (forall out : text, sem_program orc fuel p <> SemError EArgumentError out) -> (exists budget : nat, obs_eq3 (run_program orc bc budget) (sem_program orc fuel p)) \/ hits_excluded orc bc.
+Proof. exact CompileCorrectI.compile_correct_F3. Qed.
+
+(* every F3 program the compiler accepts passes the semantics' static pass *)
+Theorem static_accepts_F3 : forall (p : block) (bc : bytecode) (fuel : nat), in_F3 p = true -> compile p = Ok bc -> (size3_b p <= fuel)%nat -> static_check fuel p = None.
+Proof. exact CompileCorrectI.static_accepts_F3. Qed.
+
+(* fragment F2 (no functions): unconditional, no excluded events *)
+Theorem compile_correct_F2 : forall (orc : oracle) (p : block), in_F2 p = true -> ends_expr p = true -> forall bc : bytecode, compile p = Ok bc -> forall fuel : nat, (size2_b p <= fuel)%nat -> sem_program orc fuel p <> SemFuel -> exists budget : nat, obs_eq (run_program orc bc budget) (sem_program orc fuel p).
 Proof. exact CompileCorrectD.compile_correct_F2. Qed.
 
 (* every F2 program the compiler accepts passes the semantics' static pass *)
@@ -30,6 +38,8 @@ Proof. exact CompileCorrectB.static_reject_F1. Qed.
 
 
 Print Assumptions compile_correct_partial.
+Print Assumptions static_accepts_F3.
+Print Assumptions compile_correct_F2.
 Print Assumptions static_accepts_F2.
 Print Assumptions compile_correct_F1.
 Print Assumptions compile_expr_correct_F1a.
